@@ -339,6 +339,7 @@ type c13Case struct {
 	lcEvents     []string // lifecycle events executed: kind:#active subscriptions at that moment
 	lcWithActive int
 	lifecycle    bool // the program contains partition lifecycle events: subscribes are gated the way api.Subscribe gates them (partition leader, not paused)
+	viaAPI       bool // group subscribes enter through apiServer.SubscribeInternal (the body of the Subscribe RPC) instead of partition.Subscribe
 
 	failed      bool
 	inconc      bool
@@ -554,7 +555,20 @@ func (c *c13Case) doSub(a c13Act) *c13Call {
 	req := c.request(a)
 	ctx, cancel := context.WithCancel(context.Background())
 	call.Inv = c.tick()
-	sub, st := p.Subscribe(ctx, req)
+	var sub *subscription
+	var st *status.Status
+	if c.viaAPI {
+		// the entry point of the Subscribe RPC: apiServer.SubscribeInternal ->
+		// apiServer.subscribe -> partition.Subscribe
+		s, err := c.srv.api.SubscribeInternal(ctx, req)
+		if err != nil {
+			st = status.Convert(err)
+		} else {
+			sub = s
+		}
+	} else {
+		sub, st = p.Subscribe(ctx, req)
+	}
 	call.Ret = c.tick()
 	var s *c13Sub
 	if st != nil {
@@ -1059,9 +1073,18 @@ func (c *c13Case) check(quiescent bool) {
 				continue
 			case k.Result == c13NotLeader:
 				continue
-			case k.Result != codes.FailedPrecondition.String():
+			case k.Result != codes.FailedPrecondition.String() && c.lifecycle:
+				// a partition lifecycle event may end a call in other ways
 				c.n("unexpected_result_"+k.Result+"_mode_"+k.Mode, 1)
 				continue
+			}
+			// Without lifecycle events a well-formed group subscribe is either
+			// accepted or refused because of a strictly newer holder, whatever
+			// status code the refusal carries.
+			codeCls := ""
+			if k.Result != codes.FailedPrecondition.String() {
+				c.n("unexpected_result_"+k.Result+"_mode_"+k.Mode, 1)
+				codeCls = ":" + k.Result
 			}
 			c.n("refusals_checked", 1)
 			max, ncand := uint64(0), 0
@@ -1077,18 +1100,24 @@ func (c *c13Case) check(quiescent bool) {
 					max = s.call.Epoch
 				}
 			}
-			if ncand > 0 && max > k.Epoch {
+			if ncand > 0 && max > k.Epoch && codeCls == "" {
 				continue
 			}
 			cls := "no-holder"
 			if ncand > 0 && max == k.Epoch {
 				cls = "equal-epoch-holder"
+			} else if ncand > 0 && max > k.Epoch {
+				cls = "newer-epoch-holder"
 			} else if ncand > 0 {
 				cls = "older-epoch-holder"
 			}
-			c.violation("C13:refused:"+cls,
-				fmt.Sprintf("call#%d Subscribe(g%d consumer %s epoch %d) was refused with FailedPrecondition, but no subscription of the group with a strictly newer epoch can have been the holder during the call (%d candidate holders, newest epoch %d); an equal or newer epoch must replace the current subscriber",
-					k.Idx, g, k.Cid, k.Epoch, ncand, max), nil)
+			if codeCls != "" && cls == "newer-epoch-holder" {
+				// refused for the right reason with an unusual code: not judged
+				continue
+			}
+			c.violation("C13:refused:"+cls+codeCls,
+				fmt.Sprintf("call#%d Subscribe(g%d consumer %s epoch %d) was refused with %s (%s), but no subscription of the group with a strictly newer epoch can have been the holder during the call (%d candidate holders, newest epoch %d); an equal or newer epoch must replace the current subscriber",
+					k.Idx, g, k.Cid, k.Epoch, k.Result, k.Msg, ncand, max), nil)
 			return
 		}
 	}
